@@ -2797,17 +2797,25 @@ class Env(cabc.MutableMapping):
         """
         old = {}
         local = self._d._local
+
+        def capture(k):
+            # a key given both ways keeps its pre-scope state, not the
+            # value just swapped in from ``other``; the variable that
+            # ``k`` mirrors into (``sync=``) is set by ``_set_item`` as
+            # well and has to be restored with it
+            var = self._vars.get(k)
+            for name in (k, var.sync if var is not None else ""):
+                if name and name not in old:
+                    old[name] = self._capture_for_swap(name, local)
+
         # single positional argument should be a dict-like object
         if other is not None:
             for k, v in other.items():
-                old[k] = self._capture_for_swap(k, local)
+                capture(k)
                 self._set_item(k, v, thread_local=True)
         # kwargs could also have been sent in
         for k, v in kwargs.items():
-            # a key given both ways keeps its pre-scope state, not the
-            # value just swapped in from ``other``
-            if k not in old:
-                old[k] = self._capture_for_swap(k, local)
+            capture(k)
             self._set_item(k, v, thread_local=True)
 
         if overlay is not None:
@@ -2827,7 +2835,9 @@ class Env(cabc.MutableMapping):
                     if k in self._d:
                         self._del_item(k, thread_local=True)
                 else:
-                    self._set_item(k, v, thread_local=True)
+                    # every touched name is restored from its own captured
+                    # state: no mirroring into the sync partner here
+                    self._set_item(k, v, thread_local=True, check_sync=False)
             if exception is not None:
                 # plain re-raise to preserve __cause__/__context__ chains
                 raise exception
